@@ -6,6 +6,7 @@ package main
 // and the dump of the NEO / GAS / Notary / Policy contract storage through Blockchain.SeekStorage.
 
 import (
+	"github.com/nspcc-dev/neo-go/pkg/smartcontract/manifest"
 	"crypto/sha256"
 	"encoding/binary"
 	"errors"
@@ -144,7 +145,10 @@ const (
 	c05ACommittee  = 21
 	c05APolicy     = 22
 	c05ANone       = 23 // an address nobody controls (never funded by the setup)
-	c05AFixed      = 24
+	c05ANotifier   = 24 // helper of the "lim" operations; its onNEP17Payment emits (amount mod 1000) notifications (kind: acceptor)
+	c05AAborter    = 25 // onNEP17Payment ABORTs (kind: rejector)
+	c05ALooper     = 26 // onNEP17Payment never returns: out of gas (kind: rejector)
+	c05AFixed      = 27
 )
 
 type c05Universe struct {
@@ -205,7 +209,38 @@ import "github.com/nspcc-dev/neo-go/pkg/interop"
 func OnNEP17Payment(from interop.Hash160, amount int, data any) { panic("payment refused") }
 `
 
-type c05Compiled struct{ acceptor, nocb, rejector *neotest.Contract }
+// notifier: the helper of the "lim" operations (NotifyN(n) emits n notifications); as a receiver its callback emits
+// (amount mod 1000) notifications.  aborter / looper: callbacks that ABORT / never return (run out of gas).
+const c05SrcNotifier = `package notifier
+import (
+	"github.com/nspcc-dev/neo-go/pkg/interop"
+	"github.com/nspcc-dev/neo-go/pkg/interop/runtime"
+)
+func NotifyN(n int) {
+	for i := 0; i < n; i++ {
+		runtime.Notify("N", i)
+	}
+}
+func OnNEP17Payment(from interop.Hash160, amount int, data any) { NotifyN(amount % 1000) }
+`
+const c05SrcAborter = `package aborter
+import (
+	"github.com/nspcc-dev/neo-go/pkg/interop"
+	"github.com/nspcc-dev/neo-go/pkg/interop/util"
+)
+func OnNEP17Payment(from interop.Hash160, amount int, data any) { util.Abort() }
+`
+const c05SrcLooper = `package looper
+import "github.com/nspcc-dev/neo-go/pkg/interop"
+func OnNEP17Payment(from interop.Hash160, amount int, data any) {
+	x := 0
+	for {
+		x++
+	}
+}
+`
+
+type c05Compiled struct{ acceptor, nocb, rejector, notifier, aborter, looper *neotest.Contract }
 
 var c05Contracts *c05Compiled
 
@@ -229,7 +264,10 @@ func c05Compile(t testing.TB, sender util.Uint160) *c05Compiled {
 			return neotest.CompileSource(t, sender, strings.NewReader(src), &compiler.Options{Name: name, NoEventsCheck: true, NoPermissionsCheck: true})
 		}
 		c05InHarnessDir(func() {
-			c05Contracts = &c05Compiled{mk("verif-acceptor", c05SrcAcceptor), mk("verif-nocb", c05SrcNoCb), mk("verif-rejector", c05SrcRejector)}
+			c05Contracts = &c05Compiled{acceptor: mk("verif-acceptor", c05SrcAcceptor), nocb: mk("verif-nocb", c05SrcNoCb), rejector: mk("verif-rejector", c05SrcRejector),
+				aborter: mk("verif-aborter", c05SrcAborter), looper: mk("verif-looper", c05SrcLooper)}
+			c05Contracts.notifier = neotest.CompileSource(t, sender, strings.NewReader(c05SrcNotifier), &compiler.Options{Name: "verif-notifier", NoPermissionsCheck: true,
+				ContractEvents: []compiler.HybridEvent{{Name: "N", Parameters: []compiler.HybridParameter{{Parameter: manifest.NewParameter("i", smartcontract.IntegerType)}}}}})
 		})
 	}
 	return c05Contracts
@@ -258,6 +296,9 @@ func c05Hardforks(mode string) map[string]uint32 {
 	m := map[string]uint32{}
 	for _, hf := range config.Hardforks {
 		if mode == "echidna" && hf.Cmp(config.HFEchidna) > 0 {
+			continue
+		}
+		if mode == "domovoi" && hf.Cmp(config.HFDomovoi) > 0 { // the last hard-fork before Echidna
 			continue
 		}
 		if mode == "gorgon" && hf.Cmp(config.HFGorgon) > 0 {
@@ -357,6 +398,9 @@ func c05Setup(t *c05TB, hfmode string, hook func(*config.Blockchain)) (*c05Chain
 	add(committee.ScriptHash(), c05KPlain, committee)
 	add(c.polH, c05KNative, nil)
 	add(util.Uint160{0xde, 0xad, 0xbe, 0xef, 1, 2, 3}, c05KPlain, nil)
+	add(cs.notifier.Hash, c05KAcceptor, nil)
+	add(cs.aborter.Hash, c05KRejector, nil)
+	add(cs.looper.Hash, c05KRejector, nil)
 	if len(u.hashes) != c05AFixed {
 		return nil, errors.New("universe layout")
 	}
@@ -545,6 +589,7 @@ type c05Op struct {
 	K  int    `json:"k,omitempty"`  // candidate key id, -1 = none
 	N  int    `json:"n,omitempty"`  // count / height / attribute type
 	W  int    `json:"w,omitempty"`  // witness: account whose funds are moved when it differs from F ("bad witness" transfers)
+	P  int    `json:"p,omitempty"`  // "lim": notifications emitted after the native call (N = before it)
 }
 
 const (
@@ -620,6 +665,8 @@ func (c *c05Chain) c05BuildTx(op c05Op) (*transaction.Transaction, error) {
 		return c.mkTx(c.notH, "lockDepositUntil", []any{h(op.F), int64(op.N)}, c05FeeSimple, nil, op.F)
 	case "na": // a GAS transfer F -> To of A carrying NotaryAssisted{NKeys: N}; K = 0: sent by the Notary contract, K != 0: by F
 		return c.c05NotaryTx(op)
+	case "lim":
+		return c.c05LimTx(op)
 	case "fault": // moves NEO and GAS, then aborts: everything but the fee is rolled back
 		w := io.NewBufBinWriter()
 		emit.AppCall(w.BinWriter, c.neoH, "transfer", callflag.All, h(op.F), h(op.To), op.A, nil)
